@@ -37,10 +37,18 @@ for d in sorted(glob.glob(os.path.join(VERIF, 'seeded', '*'))):
             return 'alarm (exit %d, no replay)' % rc
         return 'missed'
     others = ', '.join('%s: %s' % (k, verdict(k)) for k in sorted(res) if k != own)
-    rows.append((name, own, files, verdict(own), others, first.get(own, '')[:110]))
-out = ['| seed | property | files changed | own check | other checks run | first report |', '|---|---|---|---|---|---|']
+    # regression of the own check on the final tree (engine/seedmatrix_final.sh / the time-capped run at the end)
+    fin = '-'
+    pf = os.path.join(d, 'final.txt')
+    if os.path.exists(pf):
+        for ln in open(pf):
+            m = re.match(r'(C\d+) rc=(-?\d+) violations=(\d+) check-errors=(\d+)', ln)
+            if m and m.group(1) == own:
+                fin = 'VIOLATION' if int(m.group(3)) > 0 else ('alarm (exit %s)' % m.group(2) if int(m.group(2)) != 0 else 'missed')
+    rows.append((name, own, files, verdict(own), others, fin, first.get(own, '')[:110]))
+out = ['| seed | property | files changed | own check | other checks run | own check, final tree | first report |', '|---|---|---|---|---|---|---|']
 for r in rows:
-    out.append('| %s | %s | %s | %s | %s | %s |' % r)
+    out.append('| %s | %s | %s | %s | %s | %s | %s |' % r)
 caught = sum(1 for r in rows if r[3] == 'VIOLATION')
 alarm = sum(1 for r in rows if r[3].startswith('alarm'))
 out.append('')
